@@ -1,0 +1,14 @@
+//go:build verif
+
+// Contracts for package segment, read by /verif's govc (see /verif/DESIGN.md). Comment-only.
+package segment
+
+//@ func (*codec).decodeSegmentHeader
+//@   prop C04, C06, C07
+//@   ensures nonnil: err == nil ==> result0 != nil
+//@   ensures lens: err == nil ==> 0 <= result0.CompressedPayloadLength && result0.CompressedPayloadLength <= 131071 && 0 <= result0.UncompressedPayloadLength && result0.UncompressedPayloadLength <= 131071
+
+//@ func (*codec).decodeSegmentPayload
+//@   prop C04, C06, C07
+//@   requires lens: 0 <= header.CompressedPayloadLength && header.CompressedPayloadLength <= 131071 && 0 <= header.UncompressedPayloadLength && header.UncompressedPayloadLength <= 131071
+//@   ensures nonnil: err == nil ==> result0 != nil
